@@ -32,6 +32,11 @@ def fields_read_into(f, fl, locals_):
     return out
 
 
+def must_pass_all(fn, start, targets, through):
+    from paths import must_pass
+    return must_pass(fn, start, targets, through)
+
+
 def run(tier="quick", replay=None):
     R = Report(PID, tier,
                "Value-provenance obligations over MIR: the hash recorded for a function is computed from the very value "
@@ -369,6 +374,39 @@ def run(tier="quick", replay=None):
                 "auto: context.symbols() is filled from function_symbols after the last codegen_ call",
                 "codegen copies function_symbols into the reported symbol table before all functions are generated (or not at "
                 "all): entries for later functions would be missing", fn=cg.path)
+    # ---------------- O8: the extraction search looks at every node, atoms included -------------------------
+    # A symbol entry is only usable if the code it names can be found again in the program: path_to_function searches the
+    # compiled program for a subtree with the entry's hash.  An optimised function body can be a single atom (`5` for
+    # (defun ident (X) X)), so the arm for non-pairs must compare the node's hash with the wanted one as well.
+    PTF = "compiler::compiler::path_to_function_inner"
+    pf = prog.fn(PTF) or prog.fn("compiler::compiler::path_to_function")
+    if pf is None:
+        R.viol("R13.O8", "R13.O8|anchor-lost|path_to_function", "compiler::compiler", "anchor lost: path_to_function(_inner)")
+    else:
+        pfl = Flow(pf)
+        hash_param = next((i for i in range(1, pf.argc + 1) if "[u8]" in pf.local_ty(i)), None)
+        eq_blocks = []
+        for bb, t in pf.calls():
+            c = callee_of(t) or ""
+            if c.endswith("::eq") or c.endswith("::ne"):
+                ls = [op_local(a) for a in t["args"] if op_local(a) is not None]
+                if hash_param is not None and any(hash_param in pfl.back_pure([l]) for l in ls):
+                    eq_blocks.append(bb)
+        leaf_entry = None
+        for bb, b in enumerate(pf.blocks):
+            t = b["t"]
+            if t["k"] == "switch" and not b.get("cleanup"):
+                dl = op_local(t["discr"])
+                for st in b["s"]:
+                    if st["pl"]["l"] == dl and st["rv"]["k"] == "discr":
+                        arms = [tgt for v, tgt in t["arms"]]
+                        # SExp::Cons is the explicit arm; everything else (atoms, nil, integers, strings) the otherwise arm
+                        leaf_entry = t["otherwise"] if len(arms) == 1 else None
+        ok = leaf_entry is not None and bool(eq_blocks) and must_pass_all(pf, leaf_entry, pf.return_blocks(), eq_blocks)
+        R.check(ok, "R13.O8", "R13.O8|leaf-nodes-compared", "%s:%s" % (pf.file, pf.line),
+                "auto: the search compares the hash of non-pair nodes with the wanted hash on every path of that arm",
+                "path_to_function does not compare the hash of atom nodes with the wanted hash on every path: a function whose "
+                "(optimised) code is a single atom has a symbol entry but cannot be extracted through it", fn=pf.path)
     return R.finalize()
 
 
